@@ -53,6 +53,18 @@ CHECKS = {
    note=NOTE_COMMON+" 'Linear sampling' is the checker's trilinear interpolant, validated against the real get_receiver(method='linear') at solver witnesses. Magnetic position/orientation concrete (discretize is compiled), mu_r=1. Reciprocity is a corollary (C02 symmetry + transposes + exact solve), not checked.",
    technique="symbolic execution with forking cell search (path = cell class) + SMT validity of polynomial identities in position/angles/field; linear-form comparison for the magnetic transpose",
    ref="DESIGN.md §6 C09"),
+ 'C10': dict(
+   text="fields._point_vector (position anywhere in the grid) and fields._dipole_vector (first electrode symbolic in a cell, second "
+        "= first + t*d, t symbolic, d from a list of axis-aligned and Pythagorean directions; also three-electrode wires) are "
+        "executed symbolically; clipping/sorting/min/max comparisons fork so each path is one way the segment crosses the cells; "
+        "per path z3 decides: components sum to the electrode difference / unit direction, the code's re-normalisation guard "
+        "cannot fire, no segment of a wire is dropped, only edges of bounding-box cells are non-zero. get_source_field: field "
+        "== vector*strength*(-s mu0) with symbolic strength (None/frequency/Laplace), repeated calls on one Source instance, wire "
+        "= sum of segments. Conversions for ALL dipoles: point_to_dipole(dipole_to_point(d)) = d; square loop closed, square of "
+        "that area, perpendicular sides, right-handed normal = area*direction, centred (NRA with axiomatised trigonometry).",
+   note=NOTE_COMMON+" np.round(.,9) identity; Euclidean norm of vectors parallel to the known direction computed exactly (parallelism checked per call); dipoles in the outermost node plane excluded; dipole span bounded (quick: <= 2 nodes axis-aligned, 1 cell oblique).",
+   technique="symbolic execution with forking clipping comparisons (path = crossing class) + NRA validity queries; axiomatised cos/sin/angle for the conversions",
+   ref="DESIGN.md §6 C10"),
  'C05': dict(
    text="Bounded symbolic execution with the grid shape as z3 integers: MGParameters._max_level, _current_sc_dir, _current_lr_dir, "
         "smoothing dispatch, multigrid recursion and _terminate run with numerics stubbed; the explorer forks on the code's "
